@@ -67,6 +67,13 @@ def entryOK (e : String) : Bool :=
     | _, _, _ => false
   | _ => false
 
+/-- `cfg.store_bg kind= life=<ns> gci=<ns>`: after a few expiry ticks a fresh peer is still there iff the *validated*
+peer lifetime (default 30 min when the configured one is not positive) exceeds the second or so that has passed -/
+def opStoreBG (l : Line) : Except String String := do
+  let life ← l.int "life"
+  let life' : Int := if life ≤ 0 then 30 * 60 * 1000000000 else life
+  pure (s!"kept={b01 (decide (life' ≥ 1000000000))}\tbg")
+
 def opHooks (l : Line) : Except String String := do
   let spec := l.get "list"
   let es := if spec == "-" || spec == "" then [] else spec.splitOn ","
@@ -79,6 +86,7 @@ def handle (l : Line) : Option (Except String String) :=
   | "cfg.validate" => some (opValidate l)
   | "cfg.new" => some (opNew l)
   | "cfg.hooks" => some (opHooks l)
+  | "cfg.store_bg" => some (opStoreBG l)
   | "cfg.redisurl" => some (opRedisURL l)
   | "cfg.store_new" => some (opStoreNew l)
   | _ => none
